@@ -37,26 +37,29 @@ def run(ctx):
 
 
 def h1(ctx, fx, H):
-    ws = common.struct_field_writes(fx, HSTRUCT, "serialized_sd_jwt") or []
+    # who may write: the constructor (and helpers that only it calls, whose code is judged inside the constructor's view)
+    priv = common.private_helpers_of(fx, H.new)
+    for w in common.struct_field_writes(fx, HSTRUCT, "serialized_sd_jwt") or []:
+        f = w["fn"]
+        if f.name == H.new.name or f.name in priv:
+            continue
+        if w["how"] in ("mutborrow", "partial"):
+            ctx.finding("C06.H1", f, "jwt-mutated", "the stored issuer-signed JWT is mutably borrowed / partially written", line=w["line"])
+        else:
+            ctx.finding("C06.H1", f, "jwt-writer", "serialized_sd_jwt is written outside the constructor", line=w["line"])
     nassign = 0
-    for w in ws:
+    for w in common.struct_field_writes(fx, HSTRUCT, "serialized_sd_jwt", fns=[H.new]) or []:
         f, line = w["fn"], w["line"]
         if w["how"] in ("mutborrow", "partial"):
             ctx.finding("C06.H1", f, "jwt-mutated", "the stored issuer-signed JWT is mutably borrowed / partially written", line=line)
             continue
         v = peel(w["value"])
-        if f is not H.new:
-            ctx.finding("C06.H1", f, "jwt-writer", "serialized_sd_jwt is written outside the constructor", line=line)
-            continue
-        if w["how"] == "init":
-            if const_value(v) == "":
-                ctx.ok("C06.H1", f, "jwt-init", "empty initialiser", line=line)
-            else:
-                ctx.finding("C06.H1", f, "jwt-init", "unexpected initial value %s" % vstr(v, 3), line=line)
+        if w["how"] == "init" and const_value(v) == "" or (w["how"] == "init" and v.kind == "call" and v.d["term"].get("name") in ("new", "default") and not v.kids):
+            ctx.ok("C06.H1", f, "jwt-init", "empty initialiser", line=line)
             continue
         nassign += 1
         if must(w["value"], lambda x: is_field(x, "unverified_sd_jwt")):
-            ctx.ok("C06.H1", f, "jwt-from-input", "assigned from the parser's unverified_sd_jwt", line=line)
+            ctx.ok("C06.H1", f, "jwt-from-input", "set from the parser's unverified_sd_jwt", line=line)
         else:
             ctx.finding("C06.H1", f, "jwt-from-input", "the JWT kept for presentations is not the one parsed from the input: %s" % vstr(v, 4), line=line)
     ctx.floor("C06.H1", "assignments of serialized_sd_jwt in the constructor", nassign, 1)
@@ -68,11 +71,8 @@ def h1(ctx, fx, H):
         v = w["value"]
         sp = [x for x in walk(v) if x.kind == "call" and x.d["term"].get("name") == "split" and len(x.kids) == 2 and const_value(x.kids[1]) == "~"]
         if sp:
-            ok1 = all(peel(s.kids[0]).kind == "param" for s in sp)
-            nx = [x for x in walk(v) if x.kind == "call" and x.d["term"].get("name") in ("next", "next_back", "nth", "last")]
-            ok2 = len(nx) == 1 and nx[0].d["term"].get("name") == "next" and nx[0].d["bb"] not in cfg.reach_strict(f, nx[0].d["bb"])
-            rewrites = [x for x in walk(v) if x.kind == "call" and x.d["term"].get("name") in ("replace", "trim", "to_lowercase", "to_uppercase", "trim_end", "trim_start", "replacen")]
-            if ok1 and ok2 and not rewrites:
+            import vmodel
+            if vmodel.first_tilde_part(f, v) is not None:
                 ctx.ok("C06.H1", f, "jwt-first-part", "unverified_sd_jwt is the first `~`-separated part of the input, unmodified", line=w["line"])
             else:
                 ctx.finding("C06.H1", f, "jwt-first-part", "the compact parser does not keep the first `~`-separated part of the input verbatim: %s" % vstr(v, 5), line=w["line"])
@@ -225,10 +225,13 @@ def h4(ctx, fx, H):
         ctx.missing("C06.H4", "nonce/aud/holder_key", "parameters not found")
         return
     kb_calls = []
+    import callgraph as _cg
     for b, t in P.calls():
-        if t.get("resolved_local") and t.get("resolved") in fx.fns:
+        if (t.get("resolved") or "") == "jsonwebtoken::encode":
+            kb_calls.append(b)
+        elif t.get("resolved_local") and t.get("resolved") in fx.fns:
             callee = fx.fns[t["resolved"]]
-            if any((tt.get("resolved") or "") == "jsonwebtoken::encode" for f2 in [fx.fns[n] for n in __import__("callgraph").reachable_from(H.g, [callee.name])] for _, tt in f2.calls()):
+            if any((tt.get("resolved") or "") == "jsonwebtoken::encode" for f2 in [fx.fns[n] for n in _cg.reachable_from(H.g, [callee.name])] for _, tt in f2.calls()):
                 kb_calls.append(b)
     if not kb_calls:
         ctx.missing("C06.H4", "KB builder", "create_presentation never builds a key-binding JWT")
@@ -301,7 +304,14 @@ def h4_fresh(ctx, fx, H):
 def h5(ctx, fx, H):
     P = H.present
     pv = vals(P)
-    joins = [(b, pv.call_node(b)) for b, t in P.calls() if t.get("name") == "join"]
+    # the join whose result is (part of) the returned presentation
+    rets = [pv._rv(e["rv"], e["bb"], e["idx"]) for e in cfg.exit_sites(P) if e["kind"] == "Ok" and "rv" in e]
+    joins = []
+    for b, t in P.calls():
+        if t.get("name") == "join":
+            jn = pv.call_node(b)
+            if any(may(r, lambda x: x is jn) for r in rets):
+                joins.append((b, jn))
     if not joins:
         ctx.finding("C06.H5", P, "compact-join", "no `~` join in create_presentation")
         return
